@@ -297,7 +297,7 @@ def run_job(job: dict) -> dict:
         if "valid" in checks:
             v = validity(rec["result"], rec["result_text"], universe, consts, max_facts)
             if v is not None:
-                v["culprit"] = _first_invalid_stage(job, rec["stages"])
+                v["culprit"] = _first_invalid_stage(job, rec["stages"], v)
                 cres["violations"].append(v)
         if "semantic" in checks:
             orc = cfg["oracle"]
@@ -336,8 +336,9 @@ def run_job(job: dict) -> dict:
                                       for m in src.values()}) > 1
             except RuntimeError as exc:
                 if "valid" not in checks:
-                    cres["violations"].append({"kind": "invalid_text", "detail": str(exc)[:300],
-                                               "culprit": _first_invalid_stage(job, rec["stages"])})
+                    vv = {"kind": "invalid_text", "detail": str(exc)[:300]}
+                    vv["culprit"] = _first_invalid_stage(job, rec["stages"], vv)
+                    cres["violations"].append(vv)
             except oracle.CapHit:
                 cres["cap"] = True
         out["configs"].append(cres)
@@ -356,12 +357,17 @@ def _last_stage(stages) -> str:
     return "after:" + stages[-1][0]
 
 
-def _first_invalid_stage(job, stages) -> str:
+def _first_invalid_stage(job, stages, v=None) -> str:
+    prev = "\n".join(str(s) for s in parse(job["prog"]))
     for stage, text in stages:
         try:
             oracle.solve(text=text, universe=job["universe"], consts=job["consts"], max_facts=0)
         except RuntimeError:
+            if v is not None:
+                v["before"], v["after"] = prev, text
+                v["sig"], v["canon"] = rewrite_signature(prev, text)
             return stage
         except oracle.CapHit:
             pass
+        prev = text
     return "unknown"
